@@ -190,13 +190,13 @@ def step (s : St) (toks : List String) : St × List String :=
         | "rawseek" => run (rawSeek ph (arg 0)) (seekLine op)
         | "pcmseekpage" => run (pcmSeekPage ph (rawSeek ph) (arg 0)) (seekLine op)
         | "pcmseek" => run (pcmSeek ph (rawSeek ph) (arg 0)) (seekLine op)
-        | "rawseeklap" => run (seekLap ph (rawSeek ph (arg 0))) (seekLine op)
-        | "pcmseekpagelap" => run (seekLap ph (pcmSeekPage ph (rawSeek ph) (arg 0))) (seekLine op)
-        | "pcmseeklap" => run (seekLap ph (pcmSeek ph (rawSeek ph) (arg 0))) (seekLine op)
+        | "rawseeklap" => run (lapGuard (fun v => decide (0 ≤ arg 0 ∧ arg 0 ≤ v.end_)) (seekLap ph (rawSeek ph (arg 0)))) (seekLine op)
+        | "pcmseekpagelap" => run (lapGuard (fun v => decide (0 ≤ arg 0 ∧ arg 0 ≤ pcmTotal v (-1))) (seekLap ph (pcmSeekPage ph (rawSeek ph) (arg 0)))) (seekLine op)
+        | "pcmseeklap" => run (lapGuard (fun v => decide (0 ≤ arg 0 ∧ arg 0 ≤ pcmTotal v (-1))) (seekLap ph (pcmSeek ph (rawSeek ph) (arg 0)))) (seekLine op)
         | "timeseek" => run (timeSeek (pcmSeek ph (rawSeek ph)) (Float.ofInt (arg 0) / 1000.0)) (seekLine op)
         | "timeseekpage" => run (timeSeek (pcmSeekPage ph (rawSeek ph)) (Float.ofInt (arg 0) / 1000.0)) (seekLine op)
-        | "timeseeklap" => run (seekLap ph (timeSeek (pcmSeek ph (rawSeek ph)) (Float.ofInt (arg 0) / 1000.0))) (seekLine op)
-        | "timeseekpagelap" => run (seekLap ph (timeSeek (pcmSeekPage ph (rawSeek ph)) (Float.ofInt (arg 0) / 1000.0))) (seekLine op)
+        | "timeseeklap" => run (lapGuard (fun v => !(Float.ofInt (arg 0) / 1000.0 < 0) && (Float.ofInt (arg 0) / 1000.0 < timeTotal v (-1))) (seekLap ph (timeSeek (pcmSeek ph (rawSeek ph)) (Float.ofInt (arg 0) / 1000.0)))) (seekLine op)
+        | "timeseekpagelap" => run (lapGuard (fun v => !(Float.ofInt (arg 0) / 1000.0 < 0) && (Float.ofInt (arg 0) / 1000.0 < timeTotal v (-1))) (seekLap ph (timeSeek (pcmSeekPage ph (rawSeek ph)) (Float.ofInt (arg 0) / 1000.0)))) (seekLine op)
         | "halfrate" => run (halfrate ph (arg 0 ≠ 0)) (fun rc v => s!"halfrate rc={ovname rc} p={v.hs} tell={pcmTell v}")
         | "crosslap" =>
             let k2 := (arg 0).toNat % 4
@@ -212,7 +212,7 @@ def step (s : St) (toks : List String) : St × List String :=
                 if r2 ≠ 0 then ({ s with slots := (s.slots.set! k { sl with vf := vfa }).set! k2 { s2 with vf := vfb } }, [s!"crosslap rc={ovname r2}"])
                 else
                   let (_, vfa2) := (getlapFull ph (Block.shr (curInfo' vfa).bs0 (1 + vfa.hs))).run vfa
-                  let vfb2 := { vfb with vd := vfb.vd.map fun d => (lapout (sizesOf' vfb) vfb.hs d).1 }
+                  let vfb2 := (doLapout.run vfb).2
                   ({ s with slots := (s.slots.set! k { sl with vf := vfa2 }).set! k2 { s2 with vf := vfb2 } }, ["crosslap rc=0"])
         | "clear" =>
             let (rc, vf1) := clear.run vf
